@@ -5,6 +5,7 @@ shrinker. DESIGN.md 2.4, Appendix A."""
 import copy
 import os
 import re
+import time
 import vlib
 
 LETTERS = "ABCDEFGH"
@@ -781,12 +782,14 @@ def op_lines(ops):
     return [l for l in ops.splitlines() if l.strip() and not l.startswith("#")]
 
 
-def shrink(ops, fails, budget=120):
-    """delta debugging on lines; `fails(text) -> bool`. Keeps the failure, returns minimal text."""
+def shrink(ops, fails, budget=120, wall_s=240.0):
+    """delta debugging on lines; `fails(text) -> bool`. Keeps the failure, returns minimal text. Bounded by a number of
+    tries and by wall-clock time (an input that is expensive to replay is reported less shrunk, not later)."""
     lines = op_lines(ops)
     n = 2
     tries = 0
-    while len(lines) >= 2 and tries < budget:
+    t_end = time.time() + wall_s
+    while len(lines) >= 2 and tries < budget and time.time() < t_end:
         chunk = max(1, len(lines) // n)
         reduced = False
         for i in range(0, len(lines), chunk):
@@ -799,7 +802,7 @@ def shrink(ops, fails, budget=120):
                 n = max(n - 1, 2)
                 reduced = True
                 break
-            if tries >= budget:
+            if tries >= budget or time.time() >= t_end:
                 break
         if not reduced:
             if chunk == 1:
